@@ -258,7 +258,7 @@ Shapes(L, s) ==
       \cup {<<"callind", r>> : r \in blks \cup {0}}
       \cup {<<"callother", r>> : r \in {1}}
       \* conditionally executed calls (conditional branch to block 1, then a call-like instruction)
-      \cup {<<"cbranch+call", c, n>> : c \in subs \cup {3}} \cup {<<"cbranch+call", 1, 0>>}
+      \cup {<<"cbranch+call", c, n>> : c \in subs \cup {3}}
       \cup {<<"cbranch+callind", 1>>, <<"cbranch+callother", 1>>}
 TidOrNone(s, r) == IF r = 0 THEN "" ELSE BlkName(s, r)
 CalleeName(c) == IF c = 3 THEN "x" ELSE SubName(c)
